@@ -324,6 +324,18 @@ func equalInts(a, b []int) bool {
 
 var r *vh.Run
 
+// at most 25 failing inputs per class are written (vh keeps the first 2000 lines only and the
+// syntax classes are large); the rest is counted.
+var perClass = map[string]int{}
+
+func fail(class string, input any, detail string) {
+	perClass[class]++
+	r.Count("oraclefail:" + class)
+	if perClass[class] <= 25 {
+		r.OracleFail(class, input, detail)
+	}
+}
+
 // evaluate tokens on selection and collection, K cases + in-range oracle. Returns whether the
 // selection evaluated without error.
 func evalToks(s string, n int, toks []string, inSyntax bool, withRem bool) (out, out) {
@@ -341,14 +353,14 @@ func evalToks(s string, n int, toks []string, inSyntax bool, withRem bool) (out,
 			}
 		}
 		if bad {
-			r.OracleFail(rangeClass(inSyntax), map[string]any{"fn": "RemainingPagesForPageRemoval", "expr": s, "pageCount": n}, "a remaining page is outside 1..pageCount: "+encMap(rem.sel))
+			fail(rangeClass(inSyntax), map[string]any{"fn": "RemainingPagesForPageRemoval", "expr": s, "pageCount": n}, "a remaining page is outside 1..pageCount: "+encMap(rem.sel))
 		} else {
 			r.OracleOK()
 		}
 	}
 	in := map[string]any{"expr": s, "pageCount": n}
 	if sel.panicked != "" || col.panicked != "" {
-		r.OracleFail("panic", in, sel.panicked+col.panicked)
+		fail("panic", in, sel.panicked+col.panicked)
 		return sel, col
 	}
 	bad := false
@@ -363,7 +375,7 @@ func evalToks(s string, n int, toks []string, inSyntax bool, withRem bool) (out,
 		}
 	}
 	if bad {
-		r.OracleFail(rangeClass(inSyntax), in, "a page outside 1..pageCount: selection "+encMap(sel.sel)+" collection "+vh.Ints(col.col))
+		fail(rangeClass(inSyntax), in, "a page outside 1..pageCount: selection "+encMap(sel.sel)+" collection "+vh.Ints(col.col))
 	} else {
 		r.OracleOK()
 	}
@@ -387,11 +399,11 @@ func doExpr(n int, e []term) {
 	in := map[string]any{"expr": s, "pageCount": n}
 	p := implParse(s)
 	if p.panicked != "" {
-		r.OracleFail("panic", in, p.panicked)
+		fail("panic", in, p.panicked)
 		return
 	}
 	if p.parseErr != nil || !equalStrings(p.toks, parts) {
-		r.OracleFail("syntax-rejected-valid", in, fmt.Sprintf("ParsePageSelection gave %q, %v", p.toks, p.parseErr))
+		fail("syntax-rejected-valid", in, fmt.Sprintf("ParsePageSelection gave %q, %v", p.toks, p.parseErr))
 		return
 	}
 	r.OracleOK()
@@ -402,21 +414,21 @@ func doExpr(n int, e []term) {
 	wantSel, wantCol, fails := reference(int64(n), e)
 	switch {
 	case fails != (sel.selErr != nil):
-		r.OracleFail("selection-error-differs-from-term-semantics", in, fmt.Sprintf("error expected=%v got=%v", fails, sel.selErr))
+		fail("selection-error-differs-from-term-semantics", in, fmt.Sprintf("error expected=%v got=%v", fails, sel.selErr))
 	case !fails && !equalMaps(wantSel, sel.sel):
-		r.OracleFail("selection-differs-from-term-semantics", in, "expected "+encMap(wantSel)+" got "+encMap(sel.sel))
+		fail("selection-differs-from-term-semantics", in, "expected "+encMap(wantSel)+" got "+encMap(sel.sel))
 	default:
 		r.OracleOK()
 	}
 	switch {
 	case fails || len(wantCol) == 0:
 		if col.colErr == nil {
-			r.OracleFail("collection-error-differs-from-term-semantics", in, "expected an error, got "+vh.Ints(col.col))
+			fail("collection-error-differs-from-term-semantics", in, "expected an error, got "+vh.Ints(col.col))
 		} else {
 			r.OracleOK()
 		}
 	case col.colErr != nil || !equalInts(wantCol, col.col):
-		r.OracleFail("collection-differs-from-term-semantics", in, fmt.Sprintf("expected %v got %v, %v", wantCol, col.col, col.colErr))
+		fail("collection-differs-from-term-semantics", in, fmt.Sprintf("expected %v got %v, %v", wantCol, col.col, col.colErr))
 	default:
 		r.OracleOK()
 	}
@@ -446,7 +458,7 @@ func doString(s string, ns []int) {
 	res := "err"
 	if p.panicked != "" {
 		res = "panic"
-		r.OracleFail("panic", in, p.panicked)
+		fail("panic", in, p.panicked)
 	} else if p.parseErr == nil {
 		res = "ok:" + encToks(p.toks)
 	}
@@ -460,7 +472,7 @@ func doString(s string, ns []int) {
 	case s == "":
 		r.Count("class:string-empty")
 		if p.parseErr != nil || p.toks != nil {
-			r.OracleFail("empty-selection-not-nil", in, "")
+			fail("empty-selection-not-nil", in, "")
 		} else {
 			r.OracleOK()
 		}
@@ -468,7 +480,7 @@ func doString(s string, ns []int) {
 	case ok:
 		r.Count("class:string-in-syntax")
 		if p.parseErr != nil || !equalStrings(p.toks, strings.Split(s, ",")) {
-			r.OracleFail("syntax-rejected-valid", in, fmt.Sprintf("ParsePageSelection gave %q, %v", p.toks, p.parseErr))
+			fail("syntax-rejected-valid", in, fmt.Sprintf("ParsePageSelection gave %q, %v", p.toks, p.parseErr))
 		} else {
 			r.OracleOK()
 		}
@@ -481,26 +493,26 @@ func doString(s string, ns []int) {
 	if dangerous(p.toks) {
 		r.Count("class:string-skipped-huge-loop")
 		if !ok {
-			r.OracleFail("outside-syntax-passes-parse", in, "ParsePageSelection accepted a string outside the syntax (not evaluated by the harness)")
+			fail("outside-syntax-passes-parse", in, "ParsePageSelection accepted a string outside the syntax (not evaluated by the harness)")
 		}
 		return
 	}
-	evaluated := false
+	evaluatedAt := -1
+	var evaluatedAs string
 	for _, n := range ns {
 		sel, _ := evalToks(s, n, p.toks, ok, false)
-		if sel.panicked == "" && sel.selErr == nil {
-			evaluated = true
+		if sel.panicked == "" && sel.selErr == nil && evaluatedAt < 0 {
+			evaluatedAt, evaluatedAs = n, selResult(sel)
 		}
 	}
 	if !ok {
-		if evaluated {
+		if evaluatedAt >= 0 {
 			r.Count("class:string-outside-syntax-evaluated")
-			sel := implSel(ns[len(ns)-1], p.toks, false)
-			r.OracleFail("outside-syntax-evaluated", map[string]any{"expr": s, "pageCount": ns[len(ns)-1]},
-				"outside the syntax, yet ParsePageSelection accepted it and PagesForPageSelection returned "+selResult(sel))
+			fail("outside-syntax-evaluated", map[string]any{"expr": s, "pageCount": evaluatedAt},
+				"outside the syntax, yet ParsePageSelection accepted it and PagesForPageSelection returned "+evaluatedAs)
 		} else {
 			r.Count("class:string-outside-syntax-late-reject")
-			r.OracleFail("outside-syntax-passes-parse", in, "ParsePageSelection accepted a string outside the syntax; only the evaluation rejected it")
+			fail("outside-syntax-passes-parse", in, "ParsePageSelection accepted a string outside the syntax; only the evaluation rejected it")
 		}
 	}
 }
